@@ -14,6 +14,10 @@ B  state graphs of NfdReg with every deviation available (nondeterministic at th
    parse_response: TLC enumerates ControlResponse field combinations with the expected result.
 C  random call mixes with 8 calls, recorded and judged by NfdRegTrace; random ControlResponses
    judged by NfdRegResp.
+Cancellation (A, B, C): the caller may cancel a call in progress (task.cancel()) wherever it is suspended - in the
+   queue of the command semaphore, in the sleep of the timestamp guard, waiting for the reply (CancelWaiting /
+   CancelSleeping / CancelSent of NfdReg.tla); the calls behind it and the calls made afterwards must go on, a
+   reply that arrives for the abandoned command goes nowhere (LateReply).
 """
 import json, os
 
@@ -21,13 +25,15 @@ from harness import tlc, graph, regkit
 from harness.tlaval import seq
 from harness.regkit import Scenario, Walker, env_labels
 
-ENV = {'Call', 'Tick', 'Wake', 'FwdReply', 'Connect', 'Disconnect', 'DeclareRoute'}
+CANCELS = ('CancelWaiting', 'CancelSleeping', 'CancelSent')      # the caller cancels a call in progress (three places)
+ENV = {'Call', 'Tick', 'Wake', 'FwdReply', 'Connect', 'Disconnect', 'DeclareRoute', 'LateReply'} | set(CANCELS)
 INTERNAL = ['AutoNext', 'EndRun', 'Begin', 'Acquire', 'AcquireWake', 'ReadClock', 'Sleep', 'Send', 'Finish']
 ALL_KINDS = ['r200', 'r400', 'r403', 'r503', 'nack', 'silence', 'garbage', 'vfail']
+LATE_KINDS = ['r200', 'r400', 'r403', 'r503', 'nack', 'garbage']     # what may still arrive for a command whose call was cancelled
 ALL_DEVS = ['UnregAnyData', 'RegRaisesNoBody', 'RegRaisesGarbage', 'V2TwoReads', 'V2GuardGivesUp', 'LegacyNoGuard',
             'LegacyUnregNoSem', 'LegacyUnregKeyError']
 INVS = ['TypeOK', 'ClockBound', 'OneAtATime', 'TsStrictlyIncreasing', 'SuccessIff200', 'NeverRaises', 'ExactlyOneCommand',
-        'RoutesOncePerConnection', 'NoStrandedWaiter', 'SemHolderOk', 'NothingBad']
+        'RoutesOncePerConnection', 'NoStrandedWaiter', 'SemHolderOk', 'CancelReleases', 'NothingBad']
 # which property clause each deviation can break (used to attribute a violated clause to a deviation)
 RELEVANT = {'UnregAnyData': {'SuccessIff200'},
             'RegRaisesNoBody': {'NeverRaises', 'RoutesOncePerConnection'},
@@ -47,15 +53,15 @@ def tla_set(xs):
 
 
 def consts(front, ncalls, prefixes, routes, maxconn, maxclock, kinds, allowed, forced=(), verbs=('register', 'unregister'),
-           late=(), stall=False):
-    return {'LateRoutes': tla_set(late), 'Stall': 'TRUE' if stall else 'FALSE',
+           late=(), stall=False, maxcancel=0):
+    return {'LateRoutes': tla_set(late), 'Stall': 'TRUE' if stall else 'FALSE', 'MaxCancel': maxcancel,
             'FrontEnd': '"%s"' % front, 'NCalls': ncalls, 'UserPrefixes': tla_set(prefixes), 'UserVerbs': tla_set(verbs),
             'Routes': '<- R%d' % routes, 'MaxConn': maxconn, 'MaxClock': maxclock,
             'ReplyKinds': tla_set(kinds), 'Allowed': tla_set(allowed), 'Forced': tla_set(forced)}
 
 
 def res_str(r):
-    return 'none' if r['k'] == 'none' else 'exc' if r['k'] == 'raised' else 'T' if r['v'] else 'F'
+    return 'none' if r['k'] == 'none' else 'exc' if r['k'] == 'raised' else 'canc' if r['k'] == 'cancelled' else 'T' if r['v'] else 'F'
 
 
 def proj(st):
@@ -100,8 +106,10 @@ def apply(sc, belief, g, act, args):
         sc.wake(args[1], args[2])
     elif act == 'DeclareRoute':
         sc.declare(args[0], args[1])
-    elif act == 'FwdReply':
-        c, k, b, d = args
+    elif act in CANCELS:
+        sc.cancel(args[0], args[1])
+    elif act in ('FwdReply', 'LateReply'):
+        c, k, b, d = args if act == 'FwdReply' else (args[0], 'r200', True, args[1])   # late: the answer nobody waits for
         idx = None
         for s in belief:
             for i, cm in enumerate(seq(g.state[s]['cmds'])):
@@ -189,7 +197,7 @@ def stage_b(ctx, front, name, cs, routes, ncalls, max_paths=None, learn=None):
         ctx.traces += 1
         ctx.evaluations += k
         acts = [a for a, _ in labels]
-        if 'FwdReply' in acts and (acts.count('Call') >= 2 or routes):
+        if ('FwdReply' in acts or any(a in CANCELS for a in acts)) and (acts.count('Call') >= 2 or routes):
             ctx.nt(['B', front, name, labels])
         ctx.sample({'kind': 'B-path', 'front': front, 'cfg': name, 'stimuli': labels[:12]}, limit=4)
     ctx.note('B %s/%s: %d states, %d edges, %d distinct stimulus sequences replayed' % (front, name, len(g.state), g.n_edges, n))
@@ -355,6 +363,8 @@ def record(front, routes, rng, ncalls=12, nev=40):
         declared = False
         epoch_start, expected = 0, len(rts)      # auto-registrations expected on this connection (route 'z' included)
         answered = set()
+        cancel_w = rng.choice([0, 0, 1, 2])       # half of the executions without cancellations, as before
+        maybe_late = set()       # commands that were outstanding when a call was cancelled: their call may be gone
         filt = set(rts) if front == 'legacy' else set()
         conns = 1
         kinds = ALL_KINDS
@@ -371,6 +381,8 @@ def record(front, routes, rng, ncalls=12, nev=40):
             if open_cmds:
                 choices += ['FwdReply'] * 4
                 kinds = ALL_KINDS if len(open_cmds) == 1 else [k for k in ALL_KINDS if k != 'silence']
+            if sc.pending():
+                choices += ['Cancel'] * cancel_w      # the caller cancels a call in progress, wherever it is suspended
             if sc.face.running and not open_cmds and tasks_done and auto_done and conns < 2 and rng.random() < 0.3:
                 choices += ['Disconnect']
             if not sc.face.running and conns < 2:
@@ -404,12 +416,19 @@ def record(front, routes, rng, ncalls=12, nev=40):
                 ev.append({'a': 'Declare', 'r': 'z', 'd': d})
             elif a == 'FwdReply':
                 i = rng.choice(open_cmds)
-                k = rng.choice(kinds)
+                # a command whose call may have been cancelled: answered with Data or a Nack only (nobody may be waiting: the
+                # lifetime of nothing would end, no validator would run)
+                k = rng.choice([x for x in kinds if x in LATE_KINDS] if i in maybe_late else kinds)
                 b = k in regkit.STATUS and rng.random() < 0.7
                 garbage = regkit.GARBAGE if rng.random() < 0.6 else bytes(rng.randrange(256) for _ in range(rng.randrange(0, 12)))
                 sc.reply(i, k, b, d, garbage=garbage)
                 answered.add(i)
                 ev.append({'a': 'FwdReply', 'i': i + 1, 'k': k, 'b': b, 'd': d})
+            elif a == 'Cancel':
+                c = rng.choice(sc.pending())
+                maybe_late |= set(open_cmds)
+                sc.cancel(c, d)
+                ev.append({'a': 'Cancel', 'c': c, 'd': d})
             elif a == 'Disconnect':
                 sc.disconnect()
                 filt.clear()
@@ -421,6 +440,14 @@ def record(front, routes, rng, ncalls=12, nev=40):
                 filt |= set(rts) if front == 'legacy' else set()
                 ev.append({'a': 'Connect', 'd': d})
             ev[-1]['post'] = sc.post()
+        if sc.face.running and nxt <= ncalls - 2 * len(rts) - 4 and any(e['a'] == 'Cancel' for e in ev):
+            # whatever was cancelled before: a call made now gets its command out once the calls before it are through
+            sc.tick()
+            ev.append({'a': 'Tick', 'post': sc.post()})
+            sc.call(nxt, 'register', 'a', False, 0)
+            ev.append({'a': 'Call', 'c': nxt, 'v': 'register', 'p': 'a', 'w': False, 'd': 0, 'post': sc.post()})
+            sc.wake(0, 1)
+            ev.append({'a': 'Pass', 'd': 0, 'adv': 1, 'post': sc.post()})
         wire_errors = list(sc.wire_errors)
         bg = sc.background_errors()
     finally:
@@ -435,7 +462,7 @@ def judge(ctx, front, routes, recs, tag, forced=None):
             f.write(json.dumps(r) + '\n')
     cfgp = os.path.join(tlc.BUILD, 'NfdRegTrace_%s_%d.cfg' % (front, routes))
     tlc.write_cfg(cfgp, spec='TSpec', constants=consts(front, 12, ['a', 'long', 'root'], routes, 2, 100000, ALL_KINDS,
-                                                       *((forced[1], forced[0]) if forced else (DEVS_OF[front],)), late=['z'], stall=True),
+                                                       *((forced[1], forced[0]) if forced else (DEVS_OF[front],)), late=['z'], stall=True, maxcancel=12),
                   invariants=['TypeOK'], constraints=['Mark'], postcondition='Post')
     r, rejected = tlc.validate_traces('NfdRegTrace', cfgp, tf, tag='c17tr')
     ctx.add_tlc('NfdRegTrace %s routes=%d (%d traces)' % (front, routes, len(recs)), r)
@@ -519,7 +546,11 @@ def stage_a(ctx):
         cfgs.append((front, 'late', consts(front, ctx.pick(3, 5), ['a'], ctx.pick(0, 1), 2, ctx.pick(2, 4), ctx.pick(['r200'], ['r200', 'nack']), [],
                                              late=['z'], verbs=ctx.pick((), ('register',)))))
         # the wall clock may stand still while loop time passes
-        cfgs.append((front, 'stall', consts(front, 2, ['a'], 0, 1, ctx.pick(1, 2), ['r200', 'r400'], [], stall=True)))
+        # (a call may also be cancelled there: the guard loop sleeps longest when the clock stands still)
+        cfgs.append((front, 'stall', consts(front, 2, ['a'], 0, 1, ctx.pick(1, 2), ['r200', 'r400'], [], stall=True, maxcancel=1)))
+        # the caller cancels calls in progress (in the semaphore queue, in the guard sleep, waiting for the reply)
+        cfgs.append((front, 'cancel', consts(front, 3, ['a'], 0, 1, 2, ctx.pick(['r200'], ['r200', 'r400', 'silence']), [],
+                                               maxcancel=ctx.pick(1, 2))))
     cov = {}
     from concurrent.futures import ThreadPoolExecutor
 
@@ -527,7 +558,7 @@ def stage_a(ctx):
         front, name, cs = job
         cfgp = os.path.join(tlc.BUILD, 'NfdReg_a_%s_%s_%s.cfg' % (front, name, ctx.tier))
         tlc.write_cfg(cfgp, constants=cs, invariants=INVS)
-        return job, tlc.run('NfdReg', cfgp, workers=workers, coverage=(name in ('routes', 'late') or (name == 'replies' and not ctx.quick)),
+        return job, tlc.run('NfdReg', cfgp, workers=workers, coverage=(name in ('routes', 'late', 'cancel') or (name == 'replies' and not ctx.quick)),
                             tag='c17a')
     with ThreadPoolExecutor(max_workers=2) as ex:
         done = list(ex.map(big, cfgs))
@@ -546,9 +577,13 @@ def stage_a(ctx):
     jobs = []
     for front, wname, routes, maxconn, ncalls in (('v2', 'W_Waiting', 0, 1, 3), ('v2', 'W_Slept', 0, 1, 2), ('v2', 'W_TwoCmds', 0, 1, 2),
                                                   ('legacy', 'W_FailNack', 0, 1, 1), ('legacy', 'W_Reconnect', 1, 2, 2),
-                                                  ('v2', 'W_Reconnect', 2, 2, 4)):
+                                                  ('v2', 'W_Reconnect', 2, 2, 4),
+                                                  ('v2', 'W_CmdAfterCancel', 0, 1, 3), ('legacy', 'W_CmdAfterCancel', 0, 1, 3),
+                                                  ('v2', 'W_CancelHolder', 0, 1, 3), ('legacy', 'W_CancelSentRet', 0, 1, 1),
+                                                  ('v2', 'W_CancelSentExc', 0, 1, 1)):
         wp = os.path.join(tlc.BUILD, 'NfdReg_w_%s_%s.cfg' % (front, wname))
-        tlc.write_cfg(wp, constants=consts(front, ncalls, ['a'], routes, maxconn, 3, ['r200', 'nack'], []), invariants=[wname])
+        tlc.write_cfg(wp, constants=consts(front, ncalls, ['a'], routes, maxconn, 3, ['r200', 'nack'], [],
+                                           maxcancel=1 if 'Cancel' in wname else 0), invariants=[wname])
         jobs.append(('witness', front, wname, wp))
     # every named deviation breaks the clause it is said to break (the properties can see each defect)
     for front in ('v2', 'legacy'):
@@ -580,11 +615,18 @@ def stage_ind(ctx):
         rp = os.path.join(tlc.BUILD, 'NfdRegRef_%s.cfg' % front)
         tlc.write_cfg(rp, constants=consts(front, 3, ['a'], 1, 2, 3, ['r200', 'r400', 'silence'], [], stall=(front == 'v2')),
                       invariants=['IndInvHolds', 'WireIncreasing'], properties=['RefinesInd'])
-        r = tlc.run('NfdRegRef', rp, workers=4, heavy=False, tag='c17r')
-        ctx.add_tlc('NfdReg (%s) refines NfdRegInd' % front, r)
-        if r.violated:
-            ctx.violation('C17/spec/NfdRegRef/%s/%s' % (front, r.violated),
-                          'TLC: %s violated (NfdReg does not refine NfdRegInd)' % r.violated, {'trace': r.errtrace})
+        # the same with calls cancelled by their caller (CancelWaiting / CancelSleeping / CancelSent -> CancelWait / CancelSleep /
+        # CancelSent of the abstraction), on a smaller configuration
+        rc = os.path.join(tlc.BUILD, 'NfdRegRef_%s_cancel.cfg' % front)
+        tlc.write_cfg(rc, constants=consts(front, 3, ['a'], 0, 1, 2, ['r200', 'silence'], [], maxcancel=ctx.pick(1, 2),
+                                           verbs=ctx.pick(('register',), ('register', 'unregister'))),
+                      invariants=['IndInvHolds', 'WireIncreasing'], properties=['RefinesInd'])
+        for what, cfgp in (('', rp), (' with cancellations', rc)):
+            r = tlc.run('NfdRegRef', cfgp, workers=4, heavy=False, tag='c17r')
+            ctx.add_tlc('NfdReg (%s) refines NfdRegInd%s' % (front, what), r)
+            if r.violated:
+                ctx.violation('C17/spec/NfdRegRef/%s/%s' % (front, r.violated),
+                              'TLC: %s violated (NfdReg%s does not refine NfdRegInd)' % (r.violated, what), {'trace': r.errtrace})
     ind.apalache(ctx, 'C17', 'NfdRegInd',
                  [('InitA', 'IndInv', 0, 'Init => IndInv'), ('IndInit', 'IndInv', 1, "IndInv /\\ Next => IndInv'"),
                   ('IndInit', 'Safety', 0, 'IndInv => OneAtATime /\\ OnePastSemaphore'),
@@ -593,9 +635,11 @@ def stage_ind(ctx):
 
 def run(ctx):
     ctx.rule = ('A: TLC exhaustive on NfdReg (both front-ends; 3 concurrent calls x free clock; all 8 reply kinds x body; routes over '
-                '2 connections). B: transition-cover stimulus sequences of the NfdReg graphs replayed on the real front-ends, '
-                'TLC-enumerated ControlResponses decoded by parse_response. C: random 8-call mixes judged by NfdRegTrace, random '
-                'ControlResponses judged by NfdRegResp. non-trivial = distinct stimulus sequence with a forwarder reply and >= 2 '
+                '2 connections; calls cancelled by their caller in the semaphore queue / the guard sleep / the wait for the reply). '
+                'B: transition-cover stimulus sequences of the NfdReg graphs replayed on the real front-ends, '
+                'TLC-enumerated ControlResponses decoded by parse_response. C: random 8-call mixes (half of them with calls cancelled while '
+                'in progress) judged by NfdRegTrace, random '
+                'ControlResponses judged by NfdRegResp. non-trivial = distinct stimulus sequence with a forwarder reply or a cancellation and >= 2 '
                 'calls (B) / >= 3 calls (C) or declared routes; distinct ControlResponse with at least one body field')
     ctx.assumptions = ['wall clock never goes backwards; 1 ms of loop time is at least 1 ms of wall time',
                        'express()/express_interest() deliver Data/Nack/timeout correctly (C03)',
@@ -644,7 +688,12 @@ def run(ctx):
             # wall clock standing still while loop time passes
             stage_b(ctx, front, 'stall', consts(front, 2, ['a'], 0, 1, 1, ['r200'], unk, has, stall=True), 0, 2,
                     max_paths=ctx.pick(150, 2000))
+            # calls cancelled by their caller: in the semaphore queue, in the guard sleep (holding the semaphore), waiting
+            # for the reply; the calls behind go on, a call made afterwards gets its command out, a late reply goes nowhere
+            stage_b(ctx, front, 'cancel', consts(front, 3, ['a'], 0, 1, ctx.pick(1, 2), ['r200'], unk, has, maxcancel=ctx.pick(1, 2),
+                                                 verbs=('register',)), 0, 3, max_paths=ctx.pick(400, 15000))
             if not ctx.quick:
+                stage_b(ctx, front, 'cancel2', consts(front, 3, ['a'], 0, 1, 1, ['r200'], unk, has, maxcancel=2), 0, 3, max_paths=8000)
                 stage_b(ctx, front, 'routes2', consts(front, 4, ['a'], 2, 2, 3, ['r200', 'nack'], unk, has, verbs=('register',)), 2, 4,
                         max_paths=8000)
         recs = stage_resp_b(ctx)
@@ -687,7 +736,11 @@ def replay(ctx, path):
                 act, args = lab[0], lab[1:]
                 if act == 'Call':
                     calls[args[0]] = (args[1], '/' + args[2])
-                if act == 'FwdReply':
+                if act in CANCELS:
+                    sc.cancel(args[0], args[1])
+                elif act in ('FwdReply', 'LateReply'):
+                    if act == 'LateReply':
+                        args = [args[0], 'r200', True, args[1]]
                     # the command of call c: first unanswered command with its verb and prefix (auto-registrations: first unanswered)
                     open_ = [i for i in range(len(sc.cmds)) if i not in answered]
                     want = calls.get(args[0])
